@@ -47,6 +47,10 @@ type Cfg struct {
 	LIDT        int      `json:"l_idt"`
 	Store       string   `json:"store"`         // "mem" (reference store) | "contract" | "tx"
 	Key         string   `json:"key,omitempty"` // ID-token signing key: "" = RSA; "ec256", "jwk_es384", "jwk_es512", "jwk_rs384"
+	// the application's session type does not remember the expiry of access tokens: the strategy must fall back to
+	// requested_at + configured lifetime, with the same outcome (lifetime source "server default" of C07). Authorization
+	// codes are left out on purpose, see DESIGN.md section 7, observation F12.
+	SessNoExp bool `json:"sess_noexp"`
 }
 
 func DefaultCfg() Cfg {
@@ -97,6 +101,15 @@ type Sess struct {
 	*openid.DefaultSession
 	JWTClaims *jwt.JWTClaims
 	JWTHeader *jwt.Headers
+	NoExp     bool // see Cfg.SessNoExp
+}
+
+// SetExpiresAt forgets the expiry of access tokens when the session is of the forgetful kind.
+func (s *Sess) SetExpiresAt(key fosite.TokenType, exp time.Time) {
+	if s.NoExp && key == fosite.AccessToken {
+		return
+	}
+	s.DefaultSession.SetExpiresAt(key, exp)
 }
 
 func NewSess(subject string) *Sess {
@@ -380,5 +393,12 @@ func (w *World) session() fosite.Session {
 	if w.SessionFn != nil {
 		return w.SessionFn()
 	}
-	return NewSess(Subject)
+	return w.sess(Subject)
+}
+
+// sess builds the session an application hands to the provider in this world
+func (w *World) sess(subject string) *Sess {
+	s := NewSess(subject)
+	s.NoExp = w.Cfg.SessNoExp
+	return s
 }
